@@ -163,6 +163,7 @@ class Scripted : public Oomd::Engine::BasePlugin {
     c.method = m;
     c.tick = curTick;
     c.t = vb::nowSec();
+    c.tEnd = c.t;
     c.ret = ret;
     const auto& ac = ctx.getActionContext();
     c.ruleset = ac.ruleset_name;
@@ -181,6 +182,71 @@ class Scripted : public Oomd::Engine::BasePlugin {
     calls.push_back(c);
   }
   std::string id_, inst_, cgroupArg_;
+};
+
+// `verif_wrap`: transparent observer around a REAL plugin (args: wrap=<registered name>, id=<id>, rest
+// forwarded). It records the wrapped plugin's prerun/run and the PluginRet it returned.
+class Wrap : public Oomd::Engine::BasePlugin {
+ public:
+  Wrap() { inst_ = "i" + std::to_string(++g_instSerial); }
+  int init(const Oomd::Engine::PluginArgs& args, const Oomd::PluginConstructionContext& context) override {
+    auto copy = args;
+    auto w = copy.find("wrap");
+    if (w == copy.end()) return 1;
+    std::string name = w->second;
+    copy.erase(w);
+    if (auto it = copy.find("id"); it != copy.end()) {
+      id_ = it->second;
+      copy.erase(it);
+    }
+    if (auto c = copy.find("cgroup"); c != copy.end()) cgroupArg_ = c->second;
+    real_.reset(Oomd::getPluginRegistry().create(name));
+    if (!real_) return 1;
+    real_->setName(name);
+    return real_->initPlugin(copy, context);
+  }
+  void prerun(Oomd::OomdContext& ctx) override {
+    Call c = snap("prerun", ctx);
+    real_->prerun(ctx);
+    c.tEnd = vb::nowSec();
+    calls.push_back(c);
+  }
+  Oomd::Engine::PluginRet run(Oomd::OomdContext& ctx) override {
+    Call c = snap("run", ctx);
+    size_t at = calls.size();
+    calls.push_back(c);
+    auto r = real_->run(ctx);
+    calls[at].tEnd = vb::nowSec();
+    calls[at].ret = r == Oomd::Engine::PluginRet::CONTINUE ? 0 : r == Oomd::Engine::PluginRet::STOP ? 1 : 2;
+    return r;
+  }
+  static Wrap* create() { return new Wrap(); }
+
+ private:
+  Call snap(const char* m, Oomd::OomdContext& ctx) {
+    Call c;
+    c.id = id_;
+    c.method = m;
+    c.tick = curTick;
+    c.t = vb::nowSec();
+    const auto& ac = ctx.getActionContext();
+    c.ruleset = ac.ruleset_name;
+    c.group = ac.detectorgroup;
+    c.uuid = ac.action_group_run_uuid;
+    if (ac.prekill_hook_timeout_ts) {
+      c.hasDeadline = true;
+      c.deadline = std::chrono::duration<double>(ac.prekill_hook_timeout_ts->time_since_epoch()).count() -
+                   vb::kEpochNs / 1e9;
+    }
+    c.target = relOrDash(ac.target_cgroup);
+    c.rulesetCgroup = relOrDash(ctx.getRulesetCgroup());
+    c.instance = inst_;
+    c.cgroupArg = cgroupArg_;
+    c.hasInvokingRuleset = ctx.getInvokingRuleset().has_value();
+    return c;
+  }
+  std::string id_, inst_, cgroupArg_;
+  std::unique_ptr<Oomd::Engine::BasePlugin> real_;
 };
 
 class ScriptedInvocation : public Oomd::Engine::PrekillHookInvocation {
@@ -231,6 +297,7 @@ class ScriptedHook : public Oomd::Engine::PrekillHook {
 
 using namespace Oomd;
 REGISTER_PLUGIN(verif_scripted, Scripted::create);
+REGISTER_PLUGIN(verif_wrap, Wrap::create);
 REGISTER_PREKILL_HOOK(verif_hook, ScriptedHook::create);
 
 }  // namespace sim
